@@ -826,6 +826,10 @@ func genC11(t *rapid.T) c11Case {
 		recs = nr
 	}
 	c.Book = vDoc{Recs: recs}
+	if rapid.IntRange(0, 2).Draw(t, "decorated") == 0 {
+		// blank lines, column-0 comments of any content and notes between the lines: they are no part of any recipe
+		vDecorate(t, &c.Book, vLayoutOpts{EOL: []string{"", "\r\n", "mixed"}[rapid.IntRange(0, 2).Draw(t, "decoeol")]}, true, "deco")
+	}
 	return c
 }
 
